@@ -372,7 +372,9 @@ static void refs_case(int kind, unsigned n, int ord)
             CHECK(shim_nlive() >= 1, "after %u of %u views were reset no allocation is alive", i + 1, n);
         }
         SHIM_CALL(ab, cstl_array_reset(&RA[ord ? 0 : n - 1]));
-        CHECK(!ab && shim_nlive() == 0 && shim_errors == 0, "after the last of %u views was reset %d allocation(s) are alive / %d bad free()s", n, shim_nlive(), shim_errors);
+        CHECK(!ab, "reset of the last view aborted");
+        /* the buffer's own storage must be gone now (bookkeeping the library may keep for itself is not the buffer); C20 only asks that nothing aborts */
+        if (!is("C20")) CHECK(shim_find(base) == NULL && shim_errors == 0, "after the last of %u views was reset the buffer's storage is still allocated / %d bad free()s", n, shim_errors);
         return;
     }
     for (i = 0; i < n; i++) cstl_shared_ptr_init(&RS[i]);
@@ -394,18 +396,19 @@ static void refs_case(int kind, unsigned n, int ord)
         }
         SHIM_CALL(ab, u = cstl_shared_ptr_unique(&RS[ord ? 0 : n - 1])); CHECK(!ab && u, "unique() is false for the only remaining owner");
         SHIM_CALL(ab, cstl_shared_ptr_reset(&RS[ord ? 0 : n - 1]));
-        CHECK(!ab && r_clears == 1 && r_cleared == base && shim_nlive() == 0 && shim_errors == 0, "after the last of %u owners let go: %d clear calls, %d allocation(s) alive", n, r_clears, shim_nlive());
+        CHECK(!ab, "reset of the last owner aborted");
+        if (!is("C20")) CHECK(r_clears == 1 && r_cleared == base && shim_nlive() == 0 && shim_errors == 0, "after the last of %u owners let go: %d clear calls, %d allocation(s) alive", n, r_clears, shim_nlive());
     } else {
         /* one owner, n-1 weak references: ord 0 releases the weak ones first, ord 1 the owner first */
-        if (ord) { SHIM_CALL(ab, cstl_shared_ptr_reset(&RS[0])); CHECK(!ab && r_clears == 1 && shim_nlive() == 1, "owner reset with %u weak references outstanding: %d clear calls, %d allocations alive (the bookkeeping must survive)", n - 1, r_clears, shim_nlive()); }
+        if (ord) { SHIM_CALL(ab, cstl_shared_ptr_reset(&RS[0])); CHECK(!ab && (is("C20") || (r_clears == 1 && shim_nlive() == 1)), "owner reset with %u weak references outstanding: %d clear calls, %d allocations alive (the bookkeeping must survive)", n - 1, r_clears, shim_nlive()); }
         for (i = 1; i < n && !nviol; i++) {
             SHIM_CALL(ab, cstl_weak_ptr_reset(&RS[i])); evals++;
             if (ab) { fail("reset of weak reference #%u aborted", i); return; }
-            if (i + 1 < n) CHECK(shim_nlive() == (ord ? 1 : 2) && r_clears == ord, "after %u of %u weak references were reset: %d allocation(s) alive, %d clear calls", i, n - 1, shim_nlive(), r_clears);
+            if (i + 1 < n && !is("C20")) CHECK(shim_nlive() == (ord ? 1 : 2) && r_clears == ord, "after %u of %u weak references were reset: %d allocation(s) alive, %d clear calls", i, n - 1, shim_nlive(), r_clears);
             if (!ord && i + 1 < n && (i < 4 || (i & 1023) == 0 || i + 5 > n)) { SHIM_CALL(ab, u = cstl_shared_ptr_unique(&RS[0])); CHECK(!ab && !u, "unique() is true while %u weak references remain", n - 1 - i); }
         }
         if (!ord) { SHIM_CALL(ab, u = cstl_shared_ptr_unique(&RS[0])); CHECK(!ab && u, "unique() is false after every weak reference was reset"); SHIM_CALL(ab, cstl_shared_ptr_reset(&RS[0])); }
-        CHECK(r_clears == 1 && shim_nlive() == 0 && shim_errors == 0, "at the end: %d clear calls, %d allocation(s) alive", r_clears, shim_nlive());
+        if (!is("C20")) CHECK(r_clears == 1 && shim_nlive() == 0 && shim_errors == 0, "at the end: %d clear calls, %d allocation(s) alive", r_clears, shim_nlive());
     }
 }
 
